@@ -23,6 +23,8 @@ LZMA1_ENTRIES = ("alone", "raw1", "raw1_buffer", "microlzma")
 PRESET_ONLY = ("easy", "easy_buffer")
 ALL_ENTRIES = XZ_ENTRIES + LZMA1_ENTRIES + ("raw2", "raw_buffer")
 UPDATABLE = ("easy", "stream", "stream_mt", "raw2", "block")        # lzma_filters_update() is supported
+SRF_TLEN = 5000
+SRF_SLEN = ((SRF_TLEN - 8) // 4 + 1) * 12
 LCLPPB_CORNERS = [(0, 0, 0), (4, 0, 4), (0, 4, 0), (1, 3, 2), (0, 2, 0), (3, 0, 2), (2, 2, 2)]
 
 class EncError(Exception):
@@ -82,16 +84,17 @@ def gen_input(kind, n, rng, period=None):
             b[o:o + ln] = gen_input("text", min(ln, n - o), rng)
         return bytes(b)
     if kind == "srf":
-        # R | S | F (chunk-boundary adversary): F = random bytes; S = the 8-byte pieces F[4k..4k+8) separated by four
+        # S | R | F (chunk-boundary adversary): F = random bytes; S = the 8-byte pieces F[4k..4k+8) separated by four
         # random bytes, so every position of F has a short match ending a few bytes after the previous one: the
-        # optimal parser looks ahead as far as it can; R = `period` random bytes puts the start of F at a chosen
-        # offset relative to the LZMA2 chunk limits.  n is ignored (length = period + 1.5*tlen + tlen).
-        tlen = 5000
+        # optimal parser looks ahead as far as it can; R = `period` random bytes.  The caller flushes after S
+        # (plan["cuts"]), so the LZMA2 chunk under test starts exactly at R and `period` is the offset of F in it.
+        tlen = SRF_TLEN
         F = rng.randbytes(tlen)
         S = bytearray()
         for k in range((tlen - 8) // 4 + 1):
             S += F[4 * k:4 * k + 8] + rng.randbytes(4)
-        return rng.randbytes(period) + bytes(S) + F
+        assert len(S) == SRF_SLEN
+        return bytes(S) + rng.randbytes(period) + F
     if kind == "x86":
         # something a BCJ filter actually changes: CALL/JMP opcodes with small displacements
         out = bytearray()
@@ -269,6 +272,11 @@ def segments_for(plan, n, rng):
     if fl == "none" or n < 2:
         return [(n, lz.FINISH)]
     act = lz.SYNC_FLUSH if fl == "sync" else lz.FULL_FLUSH
+    if plan.get("cuts"):                       # explicit flush positions (chunk-boundary sweep)
+        segs = []; prev = 0
+        for c in plan["cuts"]:
+            segs.append((c - prev, act)); prev = c
+        return segs + [(n - prev, lz.FINISH)]
     k = 1 if n < 50 else rng.randint(1, 3)
     cuts = sorted(set(rng.randint(1, n - 1) for _ in range(k)))
     segs = []
@@ -381,8 +389,9 @@ def encode(plan, data, bias=0, seed=1):
                     st.avail_out = job.size; c.code_raw(lz.RUN)                        # input consumed, Block/stream open
                 else:                                                                  # "flushed"
                     st.avail_out = job.size
-                    act = lz.FULL_FLUSH if e == "stream_mt" else (lz.SYNC_FLUSH if e in ("easy", "stream", "raw2", "block")
-                                                                  else lz.FINISH)
+                    # a finished Block (Index record) on the .xz stream encoders every other time, else a finished chunk
+                    act = lz.FULL_FLUSH if e == "stream_mt" or (e in ("easy", "stream") and seed % 2) else (
+                        lz.SYNC_FLUSH if e in ("easy", "stream", "raw2", "block") else lz.FINISH)
                     for _ in range(1000):
                         r_ = c.code_raw(act)
                         if r_ != lz.OK:
